@@ -59,7 +59,7 @@ PROPS = {
         "unreached": [
             "that each searching / iterating native consumes one budget item per unit of work (under contract: the unranking loops of combination / combination_with_replacement / permutation here, the scan loops of sequence take_while / skip_until under C08/C15)",
             "adaptors that iterate internally other than Chain / Repeat / Windows / Group: product, and `skip(n)` for a huge n on an endless generator built from a sequence (seen by probing: count(0).to_generator().skip(10**12).take(1) keeps the interpreter busy under any search limit -- the budget is drawn per element the OUTERMOST iterator yields; no contract here decides it); binom / multinom loops (range-bounded `for` loops; multinom not under contract)",
-            "further runaway natives seen by probing the documented natives with extreme arguments under finite limits, not under contract: floor_root / ceil_root with a huge root (written in the language on top of pow and bisect)",
+            "further runaway natives seen by probing the documented natives with extreme arguments under finite limits, not under contract: floor_root / ceil_root with a huge root (written in the language on top of pow and bisect; with a size limit configured they end in AllocationLimitReached since fix 04851f9), and pow itself when NO size limit is configured (the power of a huge exponent is computed whatever the search and call limits say)",
             "the proportionality (complexity) part of the statement: no contract here bounds the amount of work, only termination of the loops listed",
         ],
         "assumptions": ["std::time::Instant as a point on the integer line; Instant::now() as a ghost-logged reading (R-state)",
